@@ -35,7 +35,7 @@ pub struct Cell {
     pub late: bool,
 }
 
-pub const COMMANDS: [&str; 5] = ["vrps", "validate", "update", "server", "server-listen"];
+pub const COMMANDS: [&str; 7] = ["vrps", "vrps-update-after", "vrps-noupdate", "validate", "update", "server", "server-listen"];
 /// Runs beyond this number are forced fatal by the hook and flagged BOUND.
 const RUN_BOUND: usize = 6;
 
@@ -118,6 +118,20 @@ fn run_cell(bin: &Path, dir: &Path, cell: &Cell) -> Result<Observed, String> {
             "vrps" => {
                 cmd.args(["vrps", "-o", "/dev/null"]);
             }
+            "vrps-noupdate" => {
+                cmd.args(["vrps", "-o", "/dev/null", "--noupdate"]);
+            }
+            "vrps-update-after" => {
+                // a successful earlier run leaves a recent store status, so --update-after takes its
+                // "data is fresh enough, do not update" path
+                let mut pre = Command::new(bin);
+                pre.current_dir(dir).env_clear().env("HOME", dir).env("PATH", "/usr/bin:/bin").args(["-q", "-q", "-r"]).arg(&cache).arg("--no-rir-tals").arg("--extra-tals-dir").arg(&tals).args(["--disable-rsync", "--disable-rrdp", "vrps", "-o", "/dev/null"]);
+                let pre_res = run_watchdog(pre, dir, Duration::from_secs(90))?;
+                if pre_res.code != Some(0) {
+                    return Err(format!("preparatory vrps run failed: {:?}", pre_res.code));
+                }
+                cmd.args(["vrps", "-o", "/dev/null", "--update-after", "600"]);
+            }
             "validate" => {
                 cmd.args(["validate", "--asn", "64496", "--prefix", "192.0.2.0/24"]);
             }
@@ -181,7 +195,7 @@ fn model_runs(cell: &Cell) -> usize {
         match cell.outcome(0) {
             O::Ok | O::Fatal => 1,
             O::Retry => {
-                if cell.cmd == "vrps" {
+                if cell.cmd.starts_with("vrps") {
                     2
                 } else {
                     1
